@@ -22,6 +22,7 @@ accepts it), `none` = silent:
   `.bad`**, as is any write to anything but `crd h->futex := 0`;
 * loads of `crd h->flags` / `crd h->futex` ↦ `ldFl h f` / `ldFutex h v`; `store(&crd h->futex, 0)` ↦ `stFutex h`;
   `futex(&crd h->futex, FUTEX_WAKE, 1)` ↦ `wake h`;
+* `cds_list_empty(&call_rcu_data_list)` ↦ `listEmpty b` (`call_rcu_after_fork_child`);
 * silent: fences / compiler barriers (`cmm_smp_mb__after_uatomic_or()` stands next to the locked `or`, `cmm_smp_mb()` at the
   head of `call_rcu_wake_up` is folded into the futex load), `poll(NULL, 0, 1)` of the wait loops.
 -/
@@ -82,6 +83,12 @@ def absEvC (l : List Nat) : Event → Option CLabel
           if f = "futex" ∧ a1 = .int 1 ∧ a2 = .int 1 ∧ a3 = .int 0 ∧ a4 = .int 0 ∧ a5 = .int 0 then some (.wake h)
           else some .bad
         | _ => some .bad)
+    else if name = "cds_list_empty" then
+      (if args = [.ptr listHead] then
+        (match r with
+          | .int n => some (.listEmpty (n != 0))
+          | _ => some .bad)
+       else some .bad)
     else if name = "poll" then none
     else some .bad
   | .rmw op loc operand _ _ =>
@@ -604,5 +611,33 @@ theorem after_fork_parent_tri (l : List Nat) (on : Bool) (fuel : Nat) :
   refine Tri.seq (apFirst2_tri l on _ fuel) ?_ (fun c env inp ls hc h => norm_of_ne _ _ c env inp ls hc h)
   exact Tri.seq (Tri.while _ _ (apBody2_tri l on _ fuel)) (apPost_tri l on fuel)
     (fun c env inp ls hc h => norm_of_ne _ _ c env inp ls hc h)
+
+/-! ## `call_rcu_after_fork_child`, the path "call_rcu() has not been used" -/
+
+/-- oracle: `pthread_mutex_unlock` returns 0, `cds_list_empty` answers non-zero -/
+def AfcNoneInp : List Val → Prop :=
+  ZeroInp (fun rest => match rest with
+    | [] => True
+    | e :: _ => ∃ n : Int, n ≠ 0 ∧ e = .int n)
+
+/-- from the child's entry state (L2 `afcUnlock`, set by `forkChild`): `unlock ; listEmpty true` (L2 `afcUnlock ; afcNone`),
+the call returns at `idle` without touching anything else -/
+theorem after_fork_child_none_exec (l : List Nat) (on : Bool) (fuel : Nat) (env : Env) (inp : List Val)
+    (hh : env.priv (.glob "registered_rculfhash_atfork") = some (.int 0)) (hi : AfcNoneInp inp) :
+    ∃ out, exec fuel Gen.Src.«call_rcu_after_fork_child» env inp = .ok out ∧
+      ∃ ls', clr l ⟨.acUnlock, l, on⟩ out.events = some ls' ∧
+        (out.ctl = .blocked ∨ (out.ctl = .ret none ∧ ls' = ⟨.idle, l, on⟩ ∧ out.events.length = 2 ∧
+          out.env.priv = env.priv)) := by
+  cases inp with
+  | nil => fexec [Gen.Src.«call_rcu_after_fork_child», Gen.Src.«call_rcu_unlock», clr, crun]
+  | cons r rest =>
+    obtain ⟨rfl, hi⟩ := hi
+    cases rest with
+    | nil =>
+      fexec [Gen.Src.«call_rcu_after_fork_child», Gen.Src.«call_rcu_unlock», clr, crun, absEvC, cstep, mutexLoc]
+    | cons e rest =>
+      obtain ⟨n, hn, rfl⟩ := hi
+      fexec [Gen.Src.«call_rcu_after_fork_child», Gen.Src.«call_rcu_unlock», clr, crun, absEvC, cstep, mutexLoc,
+        listHead, hn]
 
 end UrcuVerif.Src.ForkR
